@@ -105,7 +105,9 @@ class Mixin(Node):
                     tmp = scope.variables(arg[0])
                     if not tmp:
                         return None
-                    val = tmp.value
+                    # the argument means its value where the call is
+                    # written: names inside it are not the callee's parameters
+                    val = self.process(tmp.value, scope)
                 else:
                     val = arg
                 var = Variable(var.tokens[:-1] + [val])
@@ -118,7 +120,9 @@ class Mixin(Node):
                     tmp = scope.variables(arg[0])
                     if not tmp:
                         return None
-                    val = tmp.value
+                    # the argument means its value where the call is
+                    # written: names inside it are not the callee's parameters
+                    val = self.process(tmp.value, scope)
                 else:
                     val = arg
                 var = Variable([var, None, val])
